@@ -3,6 +3,7 @@
  *  --mode cparams  cParams vectors (<= D deviations over each field's {min, min+1, mid, max-1, max}) with *_usingCParams / _usingCCtxParams
  *  --mode dstream  every window descriptor x window limits: static DStream succeeds iff window <= limit; heap peak <= estimate
  *  --mode sizeof   ZSTD_sizeof_* >= bytes currently held according to a counting allocator, after every call of short histories
+ *  --mode dseq     sequences of <= 3 frames with differently distributed needs on one static / heap DStream
  *  --mode dicts    static CDict / DDict of exactly the estimated size
  */
 #include "catalogue.h"
@@ -29,10 +30,12 @@ enum { NLEVELS = sizeof LEVELS / sizeof LEVELS[0] };
 static const size_t SIZES[] = {0, 1, 16383, 16385, 131071, 131073, 262143, 262145, 1000000};
 enum { NSIZES = sizeof SIZES / sizeof SIZES[0] };
 
+static void dseq_init(void);
 static void init(void) {
     g_mode = vx_opt("--mode", "levels"); g_maxL = (int)vx_opt_int("--maxL", 12);
     g_src = (u8*)malloc(SRCMAX); g_dst = (u8*)malloc(ZSTD_compressBound(SRCMAX)); g_out = (u8*)malloc(SRCMAX);
     fill_text(g_src, SRCMAX, 11); fill_noise(g_src + 300000, 50000, 3); memcpy(g_src + 700000, g_src + 1000, 200000);
+    if (!strcmp(g_mode, "dseq")) dseq_init();
     if (!strcmp(g_mode, "dicts")) { load_catalogue(vx_opt("--cat", "build/catalogue-quick.bin")); }
 }
 
@@ -276,7 +279,57 @@ out:
     free(blk);
 }
 
+/* --mode dseq: one static DStream sized by ZSTD_estimateDStreamSize(W) decodes every sequence of <= 3 frames whose windows are all <= W, whatever the
+ * frames need individually (input staging buffer vs output ring: a small window with large blocks, a single-segment frame whose only block is as large
+ * as the frame, frames of unknown size), with the input presented whole, in 1000-byte pieces or in 70 000-byte pieces and 4 KiB or ample output room.
+ * Content is 6-bit noise: Huffman-compressed literals only, so compressed blocks are nearly as large as their content. */
+enum { NDK = 8 };
+static u8* g_dk[NDK]; static size_t g_dkLen[NDK], g_dkN[NDK]; static const char* g_dkName[NDK];
+static void dseq_init(void) {
+    static const struct { int wlog; size_t n; int fcs; const char* name; } K[NDK] = {
+        {10, 5000, 0, "window 1 KiB, 5000 bytes, size unknown"}, {13, 40000, 0, "window 8 KiB, 40000 bytes, size unknown"}, {16, 200000, 0, "window 64 KiB, 200000 bytes, size unknown"},
+        {17, 300000, 0, "window 128 KiB, 300000 bytes, size unknown"}, {0, 1000, 1, "single segment, 1000 bytes"}, {0, 60000, 1, "single segment, 60000 bytes"},
+        {0, 120000, 1, "single segment, 120000 bytes"}, {0, 131072, 1, "single segment, 131072 bytes"} };
+    for (size_t i = 0; i < SRCMAX; i++) g_src[i] = (u8)(g_src[i] & 0x3f);
+    { uint32_t x = 12345; for (size_t i = 0; i < 400000; i++) { x = x * 1103515245u + 12345u; g_src[i] = (u8)((x >> 16) & 0x3f); } }
+    for (int k = 0; k < NDK; k++) {
+        ZSTD_CCtx* c = ZSTD_createCCtx(); ZSTD_CCtx_setParameter(c, ZSTD_c_compressionLevel, 1); g_dkN[k] = K[k].n; g_dkName[k] = K[k].name;
+        g_dk[k] = (u8*)malloc(ZSTD_compressBound(K[k].n)); ZSTD_outBuffer out = { g_dk[k], ZSTD_compressBound(K[k].n), 0 };
+        if (K[k].fcs) { g_dkLen[k] = ZSTD_compress2(c, g_dk[k], out.size, g_src, K[k].n); }
+        else { ZSTD_CCtx_setParameter(c, ZSTD_c_windowLog, K[k].wlog); ZSTD_inBuffer in = { g_src, K[k].n / 2, 0 }; ZSTD_compressStream2(c, &out, &in, ZSTD_e_continue); in.size = K[k].n; while (ZSTD_compressStream2(c, &out, &in, ZSTD_e_end)) {} g_dkLen[k] = out.pos; }
+        ZSTD_freeCCtx(c);
+    }
+}
+static void body_dseq(void) {
+    int nf = 2 + vx_choose(2), k[3]; for (int i = 0; i < nf; i++) k[i] = vx_choose(NDK);
+    int slice = vx_choose(3), smallOut = vx_choose(2), big = vx_choose(2), heap = vx_choose(2), abut = vx_choose(2);
+    size_t W = big ? (1u << 20) : (128u << 10);
+    vx_label("dseq W=%zu %s frames=[%d,%d,%d] slice=%d smallout=%d", W, heap ? "heap" : "static", k[0], k[1], nf > 2 ? k[2] : -1, slice, smallOut);
+    size_t est = ZSTD_estimateDStreamSize(W); guarded_t g; g.map = NULL; ZSTD_DStream* d;
+    if (heap) { d = ZSTD_createDStream(); ZSTD_DCtx_setParameter(d, ZSTD_d_windowLogMax, big ? 20 : 17); }
+    else { if (guarded_alloc(&g, est, abut)) return; d = ZSTD_initStaticDStream(g.block, est); }
+    if (!d) { vx_fail("no DStream for limit %zu", W); guarded_free(&g); return; }
+    size_t piece = slice == 0 ? (size_t)-1 : slice == 1 ? 1000 : 70000, cap = smallOut ? 4096 : SRCMAX;
+    for (int i = 0; i < nf && !vx_failed; i++) {
+        const u8* f = g_dk[k[i]]; size_t fl = g_dkLen[k[i]], n = g_dkN[k[i]], ipos = 0, opos = 0; size_t r = 1; long calls = 0;
+        while (calls++ < 200000) {
+            size_t end = piece > fl - ipos ? fl : ipos + piece; ZSTD_inBuffer in = { f, end, ipos }; ZSTD_outBuffer out = { g_out + opos, cap > SRCMAX - opos ? SRCMAX - opos : cap, 0 };
+            r = ZSTD_decompressStream(d, &out, &in); opos += out.pos;
+            int progress = in.pos != ipos || out.pos != 0; ipos = in.pos;
+            if (ZSTD_isError(r) || r == 0) break;
+            if (!progress && end == fl) break;
+        }
+        if (ZSTD_isError(r) || r != 0 || opos != n || memcmp(g_out, g_src, n))
+            vx_fail("%s DStream for a window limit of %zu: frame %d of the sequence (%s, after %s) fails: %s", heap ? "heap" : "static (estimateDStreamSize)", W, i + 1, g_dkName[k[i]], i ? g_dkName[k[i - 1]] : "nothing", ZSTD_isError(r) ? ZSTD_getErrorName(r) : r ? "not completed" : "wrong content");
+    }
+    if (heap) ZSTD_freeDStream(d);
+    guarded_free(&g);
+    vx_obs_u64((uint64_t)(k[0] * 64 + k[1] * 8 + (nf > 2 ? k[2] : 0)) * 64 + (uint64_t)(slice * 16 + smallOut * 8 + big * 4 + heap * 2)); vx_nontrivial();
+    if (vx_want_sample()) vx_sample("dseq: %d frames on one %s DStream (limit %zu), slice %d", nf, heap ? "heap" : "static", W, slice);
+}
+
 static void body(void) {
+    if (!strcmp(g_mode, "dseq")) { body_dseq(); return; }
     if (!strcmp(g_mode, "wear")) { body_wear(); return; }
     if (!strcmp(g_mode, "levels")) body_levels(); else if (!strcmp(g_mode, "cparams")) body_cparams(); else if (!strcmp(g_mode, "dstream")) body_dstream();
     else if (!strcmp(g_mode, "sizeof")) body_sizeof(); else body_dicts();
